@@ -11,7 +11,7 @@ Definition w1_main : tables :=
            [[(1, [1]); (2, [0])]]
            (Some [[(0, [0; 1])]]) None.
 
-Definition w1 : alltables := mkall ["c1"; "c2"] [0; 1; 2; 3] w1_main [] [[]] [].
+Definition w1 : alltables := mkall ["c1"; "c2"] [0; 1; 2; 3] w1_main [] [[]] [] [].
 
 Definition w2_sub : tables :=
   mktables [(0, "p:", "")]
@@ -23,4 +23,4 @@ Definition w2_sub : tables :=
 Definition w2 : alltables :=
   mkall ["c1"] [0; 1; 2]
         (mktables [(0, "next", "")] [(1, [(0, 2)])] None None None 0 [[(1, [0])]] None None)
-        [(0, [(0, 1)])] [[(0, [0])]] [(0, 0, w2_sub)].
+        [(0, [(0, 1)])] [[(0, [0])]] [(0, 0, w2_sub)] [(0, [2])].
